@@ -279,6 +279,51 @@ theorem c16_whfast_kepler_fg_tangent_partial (M r0 r0i ri X beta eta0 zeta0 dt :
   rw [tangentUpdate_split]
   exact tanLines_is_eps M r0i ri dt gs p dp m
 
+/-! ### WHFast symplectic correctors: the variational corrector is the ε-part of the real one -/
+
+omit [CharZero K] in
+/-- the schedule the code runs (with the refresh of the variational inertial positions after
+    *each* Kepler step that precedes a force evaluation) is the dualisation of the real
+    corrector's schedule — for every order, `inv`, `dt` and coefficient table -/
+theorem c16_corrector_schedule_is_dualised (order : Nat) (inv dt : K) (as_ bs : List K) :
+    correctorPair order inv dt as_ bs = (correctorReal order inv dt as_ bs).flatMap dualiseOp := by
+  simp only [correctorPair, correctorReal, List.flatMap_assoc]
+  apply List.flatMap_congr
+  intro p _
+  rfl
+
+/-- **Compositional statement.**  `S` is the state of the code (Jacobi and inertial copies of real
+    and variational particles), `D` the state of the real system run on dual numbers, `abs` reads
+    a code state as a dual state.  If every exported primitive commutes with `abs` — Kepler step
+    (tangent map; numerical in this check), force evaluation (`c16_var1_ignore_terms`),
+    interaction step (`c16_whfast_jacobi_term_partial` + linearity) — and the *pair* of
+    refreshes (real, then variational) is the dual refresh, then the whole corrector of any
+    order commutes with `abs`: the variational particles after `reb_whfast_apply_corrector`
+    are the ε-part of the real corrector.  A refresh of the real particles alone is *not*
+    assumed to commute: a schedule that skips a variational refresh is not covered. -/
+theorem c16_corrector_is_derivative {S D : Type} (step : WOp K → S → S) (stepD : WOp K → D → D)
+    (abs : S → D)
+    (hk : ∀ a s, abs (step (.kepler a) s) = stepD (.kepler a) (abs s))
+    (ha : ∀ s, abs (step .acc s) = stepD .acc (abs s))
+    (hi : ∀ b s, abs (step (.interaction b) s) = stepD (.interaction b) (abs s))
+    (hr : ∀ s, abs (step .refreshVar (step .refreshReal s)) = stepD .refreshReal (abs s))
+    (order : Nat) (inv dt : K) (as_ bs : List K) (s : S) :
+    abs (runOps step (correctorPair order inv dt as_ bs) s)
+      = runOps stepD (correctorReal order inv dt as_ bs) (abs s) := by
+  have hZ : ∀ (a b : K) (s : S), abs (runOps step (corrZPair a b) s) = runOps stepD (corrZReal a b) (abs s) := by
+    intro a b s
+    simp only [runOps, corrZPair, corrZReal, List.foldl_cons, List.foldl_nil, hk, ha, hi, hr]
+  simp only [correctorPair, correctorReal]
+  generalize correctorStages order inv dt as_ bs = st
+  induction st generalizing s with
+  | nil => rfl
+  | cons p r ih =>
+    simp only [List.flatMap_cons, runOps, List.foldl_append] at ih ⊢
+    have := hZ p.1 p.2 s
+    simp only [runOps] at this
+    rw [← this]
+    exact ih _
+
 /-! ### move_to_com -/
 
 omit [CharZero K] in
